@@ -9,6 +9,14 @@ structural clauses are:
          in index order before emitting the operator.
   C01.S  brackets are balanced on every non-error path of every Compiler method: scope_begin/scope_end,
          push_subindex/pop_subindex, compile_begin/compile_end (a missing scope_end shifts every later local slot).
+  C01.B  conditionally executed children are scopes: every child card an arm of process_card compiles at or after its
+         conditional jump (encode_if_then) is bracketed by scope_begin / scope_end, so a local first assigned in a body
+         that may be skipped does not keep a compile-time slot that is never created at run time (which would shift every
+         local declared later).
+  C01.K  truthiness table: conditions and boolean operators see an object through CaoLangObject::is_empty - tables and
+         strings are false exactly when their length is 0, every other object kind (functions, native functions,
+         closures, upvalues) is true. Decided per variant by evaluating is_empty (and len, when it delegates to it) arm by
+         arm.
   C01.V  name resolution: resolve_var searches the locals of the current function so that the innermost (last declared)
          binding of a name wins, and returns the front-based slot index of that binding.
   C01.L  loop control state is hidden from scripts: in the Repeat and ForEach arms every local that compiler-generated
@@ -260,6 +268,120 @@ def rule_s(F):
     return res
 
 
+def rule_k(F):
+    """per-variant symbolic value of CaoLangObject::is_empty: 'false', 'true', 'len==0' (payload length), or unknown"""
+    res = []
+    OBJ = "vm::runtime::cao_lang_object::CaoLangObject"
+    f = F.fn(OBJ + "::is_empty")
+    lenf = F.fn(OBJ + "::len")
+    variants = [v["name"] for v in F.adt("vm::runtime::cao_lang_object::CaoLangObjectBody")["variants"]]
+
+    def arms_by_variant(g):
+        m = None
+        for x in hir_walk(g.hir["body"]):
+            if x.get("k") == "match" and not str(x.get("source", "")).startswith(("TryDesugar", "ForLoop")):
+                m = x
+                break
+        if m is None:
+            return None
+        out = {}
+        seen = set()
+        for a in m["arms"]:
+            names = [n.rsplit("::", 1)[-1] for n, _s, _p in pat_variants(a["pat"]) if "::" in n]
+            if not names:
+                names = [v for v in variants if v not in seen]
+            for n in names:
+                if n not in seen:
+                    out[n] = a["body"]
+                    seen.add(n)
+        return out
+
+    def len_of(variant):
+        arms = arms_by_variant(lenf)
+        if arms is None or variant not in arms:
+            return "unknown"
+        b = hu.strip_casts(arms[variant])
+        if b.get("k") == "lit" and b["lit"].get("k") == "int":
+            return b["lit"]["v"]
+        if b.get("k") == "mcall" and b["name"] == "len":
+            return "payload"
+        return "unknown"
+
+    def value(e, variant):
+        e = hu.strip_casts(e)
+        if e is None:
+            return "unknown"
+        if e.get("k") == "lit" and e["lit"].get("k") == "bool":
+            return "true" if e["lit"]["v"] else "false"
+        if e.get("k") == "bin" and e["op"] == "Eq":
+            sides = [hu.strip_casts(e["l"]), hu.strip_casts(e["r"])]
+            zero = [x for x in sides if x.get("k") == "lit" and x["lit"].get("v") == 0]
+            other = [x for x in sides if x not in zero]
+            if zero and other and other[0].get("k") == "mcall" and other[0]["name"] == "len":
+                if any(n.endswith("CaoLangObject::len") for n in hir_callee(other[0])):
+                    l = len_of(variant)
+                    return "len==0" if l == "payload" else ("true" if l == 0 else ("false" if isinstance(l, int) else "unknown"))
+                return "len==0"
+        if e.get("k") == "mcall" and e["name"] == "is_empty" and not any(n.endswith("CaoLangObject::is_empty") for n in hir_callee(e)):
+            return "len==0"
+        return "unknown"
+
+    arms = arms_by_variant(f)
+    for v in variants:
+        key = "C01/K/CaoLangObject::%s/truthiness" % v
+        body = arms[v] if arms is not None and v in arms else f.hir["body"]
+        if arms is None:
+            # no match: the body is one expression for all kinds
+            b = f.hir["body"]
+            while b.get("k") == "block" and b["block"].get("expr") is not None and not b["block"]["stmts"]:
+                b = b["block"]["expr"]
+            body = b
+        val = value(body, v)
+        want = "len==0" if v in ("Table", "String") else "false"
+        if val == "unknown":
+            res.append(undecided("C01.K", key, f.loc(), "is_empty for %s not understood" % v))
+        elif val == want:
+            res.append(ok("C01.K", key, f.loc(), "is_empty(%s) = %s" % (v, val)))
+        else:
+            res.append(bad("C01.K", key, f.loc(),
+                           "CaoLangObject::is_empty answers `%s` for a %s (expected %s): as_bool is !is_empty, so a %s value used as a "
+                           "condition or boolean operand takes the wrong branch (`if callback { callback() }`)" % (val, v, want, v.lower())))
+    return res
+
+
+def rule_b(F):
+    res = []
+    fn = F.fn("compiler::Compiler::process_card")
+    arms, _pre, _tail = cs.arms_of(fn)
+    if arms is None:
+        raise AnchorMissing("match on CardBody in process_card")
+    for arm in arms:
+        names = [v for v in arm.variants if v != "_"]
+        w = cw.Walk(F, fn, arm.env)
+        w.walk(arm.body)
+        jumps = [n for n, ev in enumerate(w.events) if ev[0] == "emit" and ev[1].endswith("encode_if_then")]
+        if not jumps:
+            continue
+        first = jumps[0]
+        first_scope = w.events[first][4] if len(w.events[first]) > 4 else 0
+        kids = [ev for ev in w.events[first + 1:] if ev[0] in ("child", "list_elem")]
+        if not kids:
+            continue
+        key = "C01/B/%s/conditional-children-are-scopes" % "+".join(names)
+        loose = [ev for ev in kids if (ev[4] if len(ev) > 4 else 0) <= first_scope]
+        if loose:
+            res.append(bad("C01.B", key, fn.loc(loose[0][3]),
+                           "the %s arm compiles a child that runs only conditionally without opening a scope around it: a local first "
+                           "assigned in that child keeps a slot that does not exist when the child was skipped, every local declared "
+                           "afterwards is addressed one slot too high (`while 0 { x = 1 }; y = 2` fails with an out-of-bounds local)"
+                           % "/".join(names)))
+        else:
+            res.append(ok("C01.B", key, fn.loc(kids[0][3]), "%d conditional child(ren), each inside scope_begin/scope_end" % len(kids)))
+    if len(res) < 4:
+        raise AnchorMissing("arms with conditional children in process_card (found %d)" % len(res))
+    return res
+
+
 def rule_l(F):
     from rules.c10 import arm_labels
     res = []
@@ -331,6 +453,8 @@ RULES = [
     Rule("C01.T", rule_t, 36, "operator cards -> like-named instruction -> like operator"),
     Rule("C01.O", rule_o, 10, "operand order of binary operators"),
     Rule("C01.S", rule_s, 12, "scope / sub-index / nested-function brackets are balanced"),
+    Rule("C01.K", rule_k, 6, "truthiness of every object kind"),
+    Rule("C01.B", rule_b, 6, "conditionally executed children are scopes"),
     Rule("C01.L", rule_l, 7, "loop control state is hidden from scripts"),
     Rule("C01.V", rule_v, 1, "a name resolves to its innermost binding"),
 ]
